@@ -621,6 +621,7 @@ fn body_from(v: &Value, ph: &mut PhCtx) -> Vec<Instruction> {
     seq(v, "body").iter().map(|i| from_abs_with(i, ph)).collect()
 }
 
+#[allow(dead_code)]
 pub fn from_abs(v: &Value) -> Instruction {
     let mut ph = PhCtx::default();
     from_abs_with(v, &mut ph)
